@@ -40,6 +40,14 @@ def phase_e2e(res, seed, n_hist, n_commits, name="e2e"):
         res.broken_tie(f"{name}: histories ran", repr(e)[:1500])
         return 0
     reqs, newfail, commits = [], 0, 0
+    skipped = [r for r in runs if r.get("skipped")]
+    # the runner must have examined (nearly) all histories; a few lost to a hung subprocess under
+    # load are recorded, more than 10 % is a broken tie
+    res.obligation(f"{name}: histories ran", len(skipped) * 10 <= len(runs), "correspondence")
+    if len(skipped) * 10 > len(runs):
+        res.broken_tie(f"{name}: histories ran", {"skipped": len(skipped), "of": len(runs), "first": skipped[0]["skipped"]})
+    if skipped:
+        res.extra.setdefault("e2e_skipped", {})[name] = {"count": len(skipped), "first": skipped[0]["skipped"]}
     for run in runs:
         commits += run["commits"]
         res.tag(["e2e:" + t for t in run["tags"]])
@@ -101,26 +109,26 @@ def run(tier, seed):
         res.obligation("build harness against the git-ai working tree", False, "build")
         res.broken_tie("harness build", out[-3000:])
         return res.finish()
-    n = 45000 if tier == "quick" else 1200000
+    n = 30000 if tier == "quick" else 600000
     corpus = os.path.join(C.VERIF, "corpus", "C19", "cases.jsonl")
     if tier == "quick":
         bad, newfail = C.phase_suite(res, "c19", seed, n, corpus)
     else:
         bad = newfail = 0
         for k in range(10):  # bounded memory: ten slices with different seeds
-            b, f = C.phase_suite(res, "c19", seed + 7919 * k, n // 10, corpus if k == 0 else None, name=f"correspondence:c19:{k}")
+            b, f = C.phase_suite(res, "c19", seed + 4000000007 * k, n // 10, corpus if k == 0 else None, name=f"correspondence:c19:{k}")
             bad += b; newfail += f
     ok, out = C.build_git_ai()
     if not ok:
         res.obligation("build git-ai binary from the working tree", False, "build")
         res.broken_tie("git-ai build", out[-3000:])
     else:
-        n_hist, n_commits = (36, 6) if tier == "quick" else (400, 8)
+        n_hist, n_commits = (30, 6) if tier == "quick" else (250, 8)
         phase_e2e(res, seed, n_hist, n_commits)
     if (bad or res.broken) and not res.violations:
         # broken tie: search harder for a concrete failing input on the implementation
         for s in range(seed + 1000, seed + 1006):
-            C.phase_suite(res, "c19", s, 30000, None, name=f"search:c19:{s}")
+            C.phase_suite(res, "c19", s * 1000003, 30000, None, name=f"search:c19:{s}")
             if res.violations:
                 break
         if not res.violations and ok:
